@@ -376,7 +376,7 @@ func genScript(g *fact.Gen) {
 		if strings.Contains(setenvSrc, `ts.env=append(ts.env,key+"="+value)`) {
 			return true, true, ""
 		}
-		if !strings.Contains(setenvSrc, "ts.env") {
+		if !strings.Contains(setenvSrc, "ts.env=") && !strings.Contains(setenvSrc, "ts.env[") {
 			return false, true, ""
 		}
 		return false, false, "Setenv updates ts.env in an unrecognised way"
@@ -388,7 +388,7 @@ func genScript(g *fact.Gen) {
 		if strings.Contains(setenvSrc, "ts.envMap[envvarname(key)]=value") {
 			return true, true, ""
 		}
-		if !strings.Contains(setenvSrc, "ts.envMap") {
+		if !strings.Contains(setenvSrc, "ts.envMap[") && !strings.Contains(setenvSrc, "ts.envMap=") {
 			return false, true, ""
 		}
 		return false, false, "Setenv updates ts.envMap in an unrecognised way"
